@@ -539,6 +539,43 @@ func redirectCases(r *ev.Run) {
 		if len(es) != 1 || es[0].Level != lvl || es[0].Message != "redirected" {
 			bad("redirect-destination", "log.Print did not arrive at the logger at level %v (got %d entries)", lvl, len(es))
 		}
+		// every write handed to the bridge arrives, whatever its text: blank and whitespace-only
+		// messages are writes like any other (round 8)
+		msgs := []string{"", " ", "\t", "\n", "x", " y ", "\n\n", "two\nlines", "   \t"}
+		std, e3 := zap.NewStdLogAt(lg, lvl)
+		if e3 != nil {
+			bad("redirect-spurious-error", "NewStdLogAt rejected a valid level: %v", e3)
+			continue
+		}
+		sent := 0
+		for k := 0; k < 6; k++ {
+			m := rng.Pick(g, msgs)
+			via := g.Intn(4)
+			func() {
+				defer func() { _ = recover() }()
+				switch via {
+				case 0:
+					log.Print(m)
+				case 1:
+					log.Println(m)
+				case 2:
+					std.Print(m)
+				default:
+					_ = std.Output(1, m)
+				}
+			}()
+			sent++
+			r.Count("bridge_writes", 1)
+			es = logs.All()
+			if len(es) != 1+sent {
+				bad("redirect-destination", "write %d through the std-log bridge (message %q, route %d) was acknowledged but %d of %d entries arrived at the logger", sent, m, via, len(es)-1, sent)
+				break
+			}
+			if got, want := es[len(es)-1].Message, strings.TrimSpace(m); got != want || es[len(es)-1].Level != lvl {
+				bad("redirect-destination", "message %q through the std-log bridge arrived as %q at level %v (want %q at %v)", m, got, es[len(es)-1].Level, want, lvl)
+				break
+			}
+		}
 		undo()
 		if log.Flags() != flags || log.Prefix() != prefix {
 			bad("redirect-restore", "the restore function left flags=%d prefix=%q", log.Flags(), log.Prefix())
